@@ -73,6 +73,19 @@ fn write(fmt: Fmt, cur: &[u8], store: &[u8], chunk: usize, rng: Rng) -> Result<V
     Ok(o.into_data())
 }
 
+/// same-size replacement through the file route (jumbf_io::save_jumbf_to_file, which patches
+/// in place through AssetPatch::patch_cai_store when the handler has one)
+fn write_via_file(fmt: Fmt, cur: &[u8], store: &[u8], dir: &std::path::Path) -> Result<Vec<u8>, String> {
+    let _ = std::fs::create_dir_all(dir);
+    let p = dir.join(format!("f.{}", fmt.ext()));
+    std::fs::write(&p, cur).map_err(|e| format!("harness write: {e}"))?;
+    let r = c2pa::jumbf_io::save_jumbf_to_file(store, &p, Some(&p)).map_err(|e| err_kind(&e));
+    let out = std::fs::read(&p).map_err(|e| format!("harness read: {e}"));
+    let _ = std::fs::remove_dir_all(dir);
+    r?;
+    out
+}
+
 fn read(fmt: Fmt, cur: &[u8], chunk: usize, rng: Rng) -> Result<Vec<u8>, String> {
     let world = stream::new_world(FaultPlan { max_chunk: chunk, ..Default::default() }, Some(rng));
     let mut i = SimStream::new(&world, 0, cur.to_vec());
@@ -107,8 +120,8 @@ impl Property for Embed {
                 id: "C08",
                 level: "exploration",
                 rule: "one evaluation = a same-length replacement inside a seeded embedding history: with L = the manifest (Cai) locations the handler reports for the file holding store s1, writing s2 (|s2| = |s1|, different content) through the real handler over SimStreams with seeded chunking must give a file of equal length whose byte diff is non-empty and lies inside L; L lies within the file and overlaps no other reported region. History position varies (first write, after a replace, after remove+write, with a pre-existing different-length store). Distinct = (format, store length, history position)",
-                assumptions: &["replacement route is write_cai over streams; the AssetPatch file route is not exercised"],
-                real: &["format handlers' write_cai and get_object_locations_from_stream"],
+                assumptions: &["about half of the replacements go through write_cai over SimStreams, the rest through jumbf_io::save_jumbf_to_file on a real file under /verif/work (the AssetPatch in-place route where the handler has one)"],
+                real: &["format handlers' write_cai, patch_cai_store and get_object_locations_from_stream", "file system under /verif/work for the patch route"],
                 stubbed: &["asset streams (SimStream)"],
                 crash_prop: "C10",
             },
@@ -217,8 +230,17 @@ impl Property for Embed {
                         },
                         _ => unreachable!(),
                     };
-                    trace.push(format!("{}({} bytes, chunk {chunk})", if same { "replace-same" } else { "write" }, store.len()));
-                    let r = sdk::guarded(|| write(fmt, &cur, &store, chunk, crng.clone()));
+                    // same-size replacements take the in-place patch route on every other chunking draw
+                    let via_file = same && which == Which::C08 && chunk % 2 == 1 && c2pa::verif::supports_patch(fmt.mime());
+                    trace.push(format!("{}({} bytes, {})", if same { "replace-same" } else { "write" }, store.len(),
+                        if via_file { "file route".to_string() } else { format!("chunk {chunk}") }));
+                    let r = if via_file {
+                        out.probe("patch_route");
+                        let dir = crate::harness::verif_dir().join("work").join(format!("c08-{}-{}-{}", rc.tier.name(), rc.seed, rc.idx));
+                        sdk::guarded(|| write_via_file(fmt, &cur, &store, &dir))
+                    } else {
+                        sdk::guarded(|| write(fmt, &cur, &store, chunk, crng.clone()))
+                    };
                     let r = match r {
                         Ok(r) => r,
                         Err(p) => {
